@@ -234,6 +234,7 @@ class SQLiteDecimalConverter(dbapiprovider.DecimalConverter):
     neg_inf = Decimal('-infinity')
     NaN = Decimal('NaN')
     def sql2py(converter, val):
+        if isinstance(val, float): val = '%.15g' % val  # a REAL carries 15 significant decimal digits reliably
         try: val = Decimal(str(val))
         except: return val
         exp = converter.exp
